@@ -219,6 +219,87 @@ def shellFirst (p : Poly) : Option Poly := (shellIndex p).map fun i => moveFront
 /-- valid polygon in any ring order -/
 def ValidAnyOrder (p : Poly) : Bool := (shellFirst p).isSome
 
+/-! ### Rings that touch in single points (valid in the OGC sense)
+
+A hole may touch its shell, and two holes may touch each other, in a single point: the interior stays
+connected and the measures are unchanged (a point has no area).  `ValidPolyT` is the decidable class:
+simple rings; any two rings have at most ONE point in common and never run along each other; the
+touching pairs form no cycle (a cycle of touching rings would enclose a piece of the interior); every
+ring has a vertex or an edge middle that lies on no other ring, and those points of a hole are
+inside-or-on the shell and outside-or-on the other holes.  (Two simple closed curves with at most one common point do not cross,
+so one vertex strictly inside puts the whole hole in the closed shell region — Jordan.) -/
+
+/-- the points two rings have in common, one entry per pair of edges that meet; `none` when two edges
+that meet are parallel (they overlap or continue each other: not a single-point touch) -/
+def contacts (r s : Ring) : Option (List P) :=
+  (cycPairs r).foldl (fun acc e => (cycPairs s).foldl (fun acc f =>
+    match acc with
+    | none => none
+    | some l =>
+      if segsMeet e.1 e.2 f.1 f.2 then
+        let den := (e.2.x - e.1.x) * (f.2.y - f.1.y) - (e.2.y - e.1.y) * (f.2.x - f.1.x)
+        if den == 0 then none else
+        let t := ((f.1.x - e.1.x) * (f.2.y - f.1.y) - (f.1.y - e.1.y) * (f.2.x - f.1.x)) / den
+        some ((⟨e.1.x + t * (e.2.x - e.1.x), e.1.y + t * (e.2.y - e.1.y)⟩ : P) :: l)
+      else some l) acc) (some [])
+
+/-- 0 = apart, 1 = touch in exactly one point, 2 = anything else -/
+def touchKind (r s : Ring) : Nat :=
+  match contacts r s with
+  | none => 2
+  | some [] => 0
+  | some (c :: t) => if t.all (· == c) then 1 else 2
+
+/-- no pair of rings meets in more than one point, and the touching pairs form a forest
+(`comp` = component label of every ring, merged along touching pairs) -/
+def touchForest (p : Poly) : Bool :=
+  let n := p.length
+  let idx := List.range n
+  let pairsIJ := idx.flatMap fun i => (idx.filter (i < ·)).map fun j => (i, j)
+  let step (st : Option (List Nat)) (ij : Nat × Nat) : Option (List Nat) :=
+    match st with
+    | none => none
+    | some comp =>
+      match p[ij.1]?, p[ij.2]? with
+      | some r, some s =>
+        match touchKind r s with
+        | 0 => some comp
+        | 1 =>
+          let ci := comp.getD ij.1 0; let cj := comp.getD ij.2 0
+          if ci == cj then none else some (comp.map fun c => if c == cj then ci else c)
+        | _ => none
+      | _, _ => none
+  (pairsIJ.foldl step (some idx)).isSome
+
+/-- ring `r` against the shell-or-nothing `sh` and the holes `hs`: every vertex and every edge middle is
+inside-or-on the shell and outside-or-on every hole, and one of these points strictly so -/
+def ringPlacedT (r : Ring) (sh : Option Ring) (hs : Poly) : Bool :=
+  let okW (v : P) := (match sh with | some s => sideRing v s != .outside | none => true) &&
+    hs.all fun g => sideRing v g != .inside
+  let okS (v : P) := (match sh with | some s => sideRing v s == .inside | none => true) &&
+    hs.all fun g => sideRing v g == .outside
+  -- the vertices and the middles of the edges
+  let pts := r ++ (cycPairs r).map fun e => (⟨(e.1.x + e.2.x) / 2, (e.1.y + e.2.y) / 2⟩ : P)
+  pts.all okW && pts.any okS
+
+def holesPlacedT (shell : Ring) : Poly → Poly → Bool
+  | _, [] => true
+  | pre, h :: rest => ringPlacedT h (some shell) (pre ++ rest) && holesPlacedT shell (pre ++ [h]) rest
+
+/-- Valid polygon whose rings may touch in single points, written shell :: holes in open spelling.
+Every `ValidPoly` is a `ValidPolyT`. -/
+def ValidPolyT : Poly → Bool
+  | [] => false
+  | shell :: holes =>
+    (shell :: holes).all SimpleRing && touchForest (shell :: holes) &&
+    ringPlacedT shell none holes && holesPlacedT shell [] holes
+
+def shellIndexT (p : Poly) : Option Nat :=
+  (List.range p.length).find? fun i =>
+    match p[i]? with
+    | some r => ValidPolyT (r :: p.eraseIdx i)
+    | none => false
+
 /-- the holes do not outweigh the shell (true of every genuinely valid polygon; kept as an explicit
 decidable side condition because its derivation from `ValidPoly` is the Jordan-measure argument
 that is outside this development) -/
